@@ -782,6 +782,12 @@ func c09Paging(c *fw.Ctx, r *rng.R) {
 			last any
 		}
 		var live []*page
+		type keptExport struct {
+			desc string
+			val  any
+			text string
+		}
+		var exports []keptExport
 		mk := func(name string, l at.List) *page {
 			p := &page{name, l, top(l)}
 			live = append(live, p)
@@ -876,7 +882,52 @@ func c09Paging(c *fw.Ctx, r *rng.R) {
 			if !check(p, name+"."+wdesc) {
 				return
 			}
+			// native exports are results too: a few are kept next to a private copy and looked at again after every later call
+			if r.Chance(1, 3) {
+				var e any
+				var edesc string
+				drive.Protect(func() {
+					switch r.Intn(4) {
+					case 0:
+						e, edesc = res.Slice(), name+".Slice()"
+					case 1:
+						e, edesc = res.IntSlice(), name+".IntSlice()"
+					case 2:
+						e, edesc = res.NativeSlice(), name+".NativeSlice()"
+					default:
+						e, edesc = res.StringSlice(), name+".StringSlice()"
+					}
+				})
+				if e != nil {
+					exports = append(exports, keptExport{edesc, e, fmt.Sprintf("%#v", e)})
+					if len(exports) > 8 {
+						exports = exports[len(exports)-8:]
+					}
+				}
+			}
+			for _, k := range exports {
+				if now := fmt.Sprintf("%#v", k.val); now != k.text {
+					c.Violate("storage-shared-between-parties", in(), fmt.Sprintf("the slice returned by %s stays what it was: %s", k.desc, k.text), now)
+					return
+				}
+			}
 			if len(live) > len(recvs)+10 {
+				// the oldest page is emptied before it is forgotten: whatever it held is free for the library to use again
+				old := live[len(recvs)]
+				drive.Protect(func() {
+					switch r.Intn(3) {
+					case 0:
+						old.l.Clear()
+					case 1:
+						for old.l.Count() > 0 {
+							old.l.Pop()
+						}
+					default:
+						for old.l.Count() > 0 {
+							old.l.Delete(0)
+						}
+					}
+				})
 				live = append(live[:len(recvs):len(recvs)], live[len(live)-10:]...)
 			}
 		}
